@@ -80,6 +80,9 @@ pub enum StopReason {
     PanicUnwindAtSyncPoint,
     /// strict replay could not follow the recorded trace
     ReplayDiverged,
+    /// every task that could still run waits for ever (condition variable, park, recv with no
+    /// timeout) and nobody is left to wake it
+    Deadlock,
 }
 
 pub struct RunState {
@@ -102,6 +105,9 @@ pub struct RunState {
     pub now: u64,
     pub wake: Vec<u64>, // per task id; 0 = not sleeping
     pub time_jumps: u64,
+    pub park_token: Vec<bool>, // per task id
+    pub since_jump: u64,
+    pub time_warps: u64,
     // ---- process ----
     pub hook: Option<Hook>,
     pub hook_sets: u32,
@@ -139,6 +145,9 @@ impl RunState {
             now: 0,
             wake: Vec::new(),
             time_jumps: 0,
+            park_token: Vec::new(),
+            since_jump: 0,
+            time_warps: 0,
             hook: None,
             hook_sets: 0,
             hook_calls: 0,
